@@ -90,7 +90,7 @@ def inline_minimize(ctx):
         ma = c.term("max_arity", "int")
         return [ma >= 0, z3.ForAll([i], z3.Implies(z3.And(0 <= i, i < c.k), ln(atL(tuples.term, i)) <= ma))]
 
-    ex.loop_specs[("ngo.inline:InlineTranslator.inline_minimize", "for tuple_ in self.minimize_tuples")] = LoopSpec(inv=inv_max, modifies={"max_arity": "int"}, name="max_arity bounds the tuples seen so far")
+    ex.loop_specs[("ngo.inline:InlineTranslator.inline_minimize", "in self.minimize_tuples")] = LoopSpec(inv=inv_max, modifies={"max_arity": "int"}, name="max_arity bounds the tuples seen so far")
     res = ctx.call(st, ctx.method("ngo.inline", "InlineTranslator", "inline_minimize", me), [stm])
     ok, bad = returned(res)
     ctx.cover("reach", st)
@@ -278,7 +278,7 @@ def compute_new_body_elements(ctx):
         ma = c.term("max_arity", "int")
         return [ma >= 0, z3.ForAll([i], z3.Implies(z3.And(0 <= i, i < c.k, at(OE, i) != relem.term), ln(A.BodyAggregateElement_terms(at(OE, i))) <= ma))]
 
-    ex.loop_specs[("ngo.inline:InlineTranslator.compute_new_body_elements", "for elem in atom.elements")] = LoopSpec(inv=inv_max, modifies={"max_arity": "int"}, name="max_arity bounds the remaining tuples seen so far")
+    ex.loop_specs[("ngo.inline:InlineTranslator.compute_new_body_elements", "in atom.elements")] = LoopSpec(inv=inv_max, modifies={"max_arity": "int"}, name="max_arity bounds the remaining tuples seen so far")
     me = ctx.new_object(st, "InlineTranslator")
     uv = Opaque("unique_vars")
     res = ctx.call(st, ctx.method("ngo.inline", "InlineTranslator", "compute_new_body_elements", me), [rule, rcond, relem, agg, atom, uv])
@@ -513,7 +513,7 @@ def inline_body_aggregate(ctx):
             z3.ForAll([i], z3.Implies(z3.And(0 <= i, i < c.k), at(hargs, i) != value_var)),
         ]
 
-    ex.loop_specs[("ngo.inline:InlineTranslator.inline_body_aggregate", "for (hv_pos, hv) in enumerate(hatom.symbol.arguments)")] = LoopSpec(inv=inv_hv, modifies={"hv_pos": "int", "hv": "ast"}, name="the value variable has not been seen yet")
+    ex.loop_specs[("ngo.inline:InlineTranslator.inline_body_aggregate", "in enumerate(hatom.symbol.arguments)")] = LoopSpec(inv=inv_hv, modifies={"hv_pos": "int", "hv": "ast"}, name="the value variable has not been seen yet")
     OE = A.BodyAggregate_elements(atom.term)
     hpred = m.rec_ctor("Predicate")(A.Function_name(hsym), ln(hargs))
     lnP, atP = m.lst_funcs(SP_)
@@ -535,7 +535,7 @@ def inline_body_aggregate(ctx):
             return [z3.BoolVal(True)]
         return [z3.Implies(re_ != m.NoneAST, found(re_, rc_))]
 
-    for hdr in ("for elem in atom.elements", "for cond in elem.condition"):
+    for hdr in ("in atom.elements", "in elem.condition"):
         ex.loop_specs[("ngo.inline:InlineTranslator.inline_body_aggregate", hdr)] = LoopSpec(inv=inv_re, modifies={"replace_elem": "ast", "replace_cond": "ast"}, name="a replaced element comes from the atom")
     me = ctx.new_object(st, "InlineTranslator")
     res = ctx.call(st, ctx.method("ngo.inline", "InlineTranslator", "inline_body_aggregate", me), [rule, atom, Opaque("unique_vars"), gv])
